@@ -546,13 +546,15 @@ func finish(c *Ctx, m *runMeta) int {
 		}
 	}
 	ruleTexts := []string{}
+	ruleIDs := []string{}
 	for _, r := range c.Rules {
 		ruleTexts = append(ruleTexts, r.ID+": "+r.Text)
+		ruleIDs = append(ruleIDs, r.ID)
 	}
 	nfun := len(c.FuncsSeen)
 	total := nOK + nViol + nKnown + nUndec
 	cov := map[string]any{
-		"explanation":         m.explanation,
+		"explanation":         m.explanation + " — Rules applied in this run (one line each under coverage.rules, with the number of instances found and the floor confirmed by hand): " + strings.Join(ruleIDs, ", ") + ".",
 		"rule":                "obligations are enumerated from the type-checked SSA program of /repo/utils (all packages of ./...); one obligation per rule instance (call site, path, field, table cell); distinct = distinct obligation keys (rule/function/construct)",
 		"rules":               c.Rules,
 		"obligations":         total,
